@@ -187,7 +187,10 @@ func clientOffers(i *IPC, w http.ResponseWriter, r *http.Request) {
 			w.WriteHeader(http.StatusGatewayTimeout)
 			return
 		default:
-			panic("unknown error")
+			// Any other error (e.g. an invalid Snowflake-NAT-Type
+			// header) is a malformed request.
+			w.WriteHeader(http.StatusBadRequest)
+			return
 		}
 	}
 
